@@ -120,6 +120,9 @@ type Exec struct {
 	netDribble  bool
 	netDgrams   [][]*term.T
 	netFrom     [][]*term.T
+	netWriteAt  []*term.T
+	netFailFrom int
+	netAttempts int
 	netWrites   [][]*term.T
 	netClosed   int
 	tickers     map[*Object]*Timer
@@ -451,6 +454,7 @@ func (e *Exec) resetPath(prefix []Decision) {
 	e.knownRaces = nil
 	e.netStream, e.netDgrams, e.netWrites, e.netCuts, e.netDribble, e.netClosed = nil, nil, nil, 0, false, 0
 	e.netFrom = nil
+	e.netWriteAt, e.netFailFrom, e.netAttempts = nil, -1, 0
 	for _, d := range prefix {
 		if d.Uncertain {
 			e.uncertain = true
